@@ -56,7 +56,29 @@ fn run_init<const N: usize>(t: Tape, light_faults: bool) -> CaseOutcome {
         max_pd_sms_per_dir: 1,
         ..GenCfg::default()
     };
+    let mut tree_dc_forced: Vec<usize> = Vec::new();
     let (specs, mut seg) = netgen::gen_network(&mut t, &cfg, n);
+    if crate::tape::gen() >= 2 {
+        // Devices check the mailbox sync managers they are given on the way to PRE-OP (receive and
+        // send mailboxes may differ in size), and the segment may be a tree (ports 2 and 3 in use).
+        for d in seg.devices.iter_mut() {
+            d.strict_config = true;
+        }
+        if n >= 2 && t.flag(35, 100, "tree_topology") {
+            let parent = crate::c_dc::gen_tree(&mut t, n, 3);
+            seg.topo = crate::esc::Topology { parent, link_delay: vec![100; n], fwd_delay: vec![100; n] };
+            seg.apply_topology_ports();
+            // junctions carry port time stamps
+            for i in 0..n {
+                if seg.devices[i].port_open.iter().filter(|p| **p).count() >= 3 && !seg.devices[i].dc_supported {
+                    let f = u16::from_le_bytes([seg.devices[i].mem[0x0008], seg.devices[i].mem[0x0009]]) | 0x0004 | 0x0100;
+                    seg.devices[i].mem[0x0008..0x000a].copy_from_slice(&f.to_le_bytes());
+                    seg.devices[i].dc_supported = true;
+                    tree_dc_forced.push(i);
+                }
+            }
+        }
+    }
     let n_groups = 1 + t.choose(3, "n_groups");
     let reject_one = t.flag(5, 100, "reject_one");
     let assign: Vec<u8> = (0..n).map(|_| t.choose(n_groups, "group_of") as u8).collect();
@@ -191,7 +213,8 @@ fn run_init<const N: usize>(t: Tape, light_faults: bool) -> CaseOutcome {
                 if alias != s.alias {
                     out.violations.push(viol("wrong-alias", format!("device {}: alias {:#06x}, device holds {:#06x}", i, alias, s.alias)));
                 }
-                if dc != expected_dc(s.support_flags) {
+                let flags = if tree_dc_forced.contains(&i) { s.support_flags | 0x0004 | 0x0100 } else { s.support_flags };
+                if dc != expected_dc(flags) {
                     out.violations.push(viol("wrong-dc-support", format!("device {}: dc support {:?}, flags {:#06x} mean {:?}", i, dc, s.support_flags, expected_dc(s.support_flags))));
                 }
             };
